@@ -571,6 +571,7 @@ type AnchoredAssert struct {
 	Before bool
 	Callee string
 	C      Clause
+	Lemma  string // apply <lemma> before|after <callee>: the (separately proved) lemma is assumed at that point
 }
 
 type PredDef struct {
@@ -639,7 +640,7 @@ type SpecFile struct {
 var directiveWords = map[string]bool{
 	"func": true, "requires": true, "ensures": true, "modifies": true, "loop": true, "pred": true, "fun": true,
 	"ufun": true, "axiom": true, "lemma": true, "pure": true, "check": true, "immutable": true, "trusted": true,
-	"inline": true, "package": true, "allocates": true, "pureparam": true, "denotes": true, "assert": true, "guarded_by": true, "havocs": true, "opaque": true, "reads": true, "call": true, "readonly": true, "lockonly": true, "abstract": true, "binds": true,
+	"inline": true, "package": true, "allocates": true, "pureparam": true, "denotes": true, "assert": true, "guarded_by": true, "havocs": true, "opaque": true, "reads": true, "call": true, "readonly": true, "lockonly": true, "abstract": true, "binds": true, "apply": true,
 }
 
 // parseSpecText parses the joined text of //@ lines. lines carries (text,lineNo).
@@ -796,6 +797,16 @@ func parseSpecLines(file string, pkg string, lines []specLine) (*SpecFile, error
 				return nil, errf("%v", err)
 			}
 			cur.Anchored = append(cur.Anchored, AnchoredAssert{Before: f[0] == "before", Callee: callee, C: Clause{Text: text, E: e, Name: name, File: file, Line: d.line}})
+		case "apply":
+			// apply <lemma> before|after <callee>[#n]
+			if cur == nil {
+				return nil, errf("apply outside func")
+			}
+			f := strings.Fields(d.text)
+			if len(f) != 3 || (f[1] != "before" && f[1] != "after") {
+				return nil, errf("apply: expected '<lemma> before|after <callee>'")
+			}
+			cur.Anchored = append(cur.Anchored, AnchoredAssert{Before: f[1] == "before", Callee: f[2], Lemma: f[0], C: Clause{Text: "lemma " + f[0], File: file, Line: d.line}})
 		case "denotes":
 			if cur == nil {
 				return nil, errf("denotes outside func")
